@@ -304,6 +304,81 @@ def extra_sequences(ctx, LOG):
     return n
 
 
+def subclass_and_empty_env(ctx, LOG):
+    """load() is the documented hook ("will be called if you access the 'module' property"): a
+    subclass overriding it is honoured.  An empty MIDO_DEFAULT_IOPORT counts as unset."""
+    n = 0
+    saved_env = {k: os.environ.get(k) for k in ENVV}
+    try:
+        for k in ENVV:
+            os.environ.pop(k, None)
+        for mod in VARIANTS:
+            purge()
+            calls = []
+
+            class Tracing(Backend):
+                def load(self):
+                    calls.append('load')
+                    Backend.load(self)
+            del LOG[:]
+            b = Tracing(mod)
+            b.open_input('x')
+            b.get_input_names()
+            r = b.open_ioport('y')
+            if isinstance(r, ports.IOPort):
+                r.closed = True
+            ctx.check('backend module lazily imported', len(calls) >= 1 and [e for e in LOG if e[0] == 'import'] == [('import', mod)],
+                      'load-hook-bypassed', {'kind': 'subclass', 'module': mod}, {'load_calls': len(calls), 'log': LOG[:2]})
+            n += 1
+
+            class Redirect(Backend):
+                def load(self):
+                    if not self.loaded:
+                        import importlib
+                        self._module = importlib.import_module('vmonbk_a')
+            del LOG[:]
+            purge()
+            rb = Redirect('vmonbk_nonexistent_module')
+            try:
+                rb.open_output('z')
+                kinds = [(e[0], e[1]) for e in LOG if e[0] != 'import']
+                ctx.check('constructor calls == model', kinds == [('Output', 'vmonbk_a')], 'load-override-ignored',
+                          {'kind': 'subclass', 'module': 'redirect'}, kinds)
+            except Exception as exc:
+                ctx.check('constructor calls == model', False, 'load-override-ignored', {'kind': 'subclass', 'module': 'redirect'},
+                          repr(exc))
+            n += 1
+        # empty MIDO_DEFAULT_IOPORT
+        for mod in VARIANTS:
+            has_io, _ = VARIANTS[mod]
+            for env_in, env_out in ((None, None), ('IN', 'OUT')):
+                purge()
+                del LOG[:]
+                os.environ['MIDO_DEFAULT_IOPORT'] = ''
+                for k, v in (('MIDO_DEFAULT_INPUT', env_in), ('MIDO_DEFAULT_OUTPUT', env_out)):
+                    if v is None:
+                        os.environ.pop(k, None)
+                    else:
+                        os.environ[k] = v
+                r = Backend(mod).open_ioport()
+                if isinstance(r, ports.IOPort):
+                    r.closed = True
+                names = [(e[0], e[2]) for e in LOG if e[0] != 'import']
+                want = [('IOPort', None)] if has_io else [('Input', env_in), ('Output', env_out)]
+                ctx.check('constructor calls == model', names == want, 'empty-ioport-variable',
+                          {'kind': 'empty-env', 'module': mod, 'in': env_in, 'out': env_out}, {'got': names, 'want': want})
+                n += 1
+    except Exception as exc:
+        ctx.fail('no exception', f'subclass-env:{type(exc).__name__}', {'kind': 'subclass'}, repr(exc))
+    finally:
+        for k, v in saved_env.items():
+            if v is None:
+                os.environ.pop(k, None)
+            else:
+                os.environ[k] = v
+    return n
+
+
 def concurrent_first_use(ctx, LOG):
     """Two Backend objects for one module; the second is used while the first is still inside the
     module's import.  It must wait for the import and then see the complete module."""
@@ -466,6 +541,9 @@ def run(ctx):
                 k = concurrent_first_use(ctx, LOG)
                 ctx.nontrivial(None, k)
                 n += k
+                k = subclass_and_empty_env(ctx, LOG)
+                ctx.nontrivial(None, k)
+                n += k
         finally:
             sys.path.remove(d)
             purge()
@@ -486,6 +564,7 @@ def replay(ctx, case):
                 set_backend_sequences(ctx, vmonbk_log.LOG)
                 extra_sequences(ctx, vmonbk_log.LOG)
                 concurrent_first_use(ctx, vmonbk_log.LOG)
+                subclass_and_empty_env(ctx, vmonbk_log.LOG)
         finally:
             sys.path.remove(d)
             purge()
